@@ -131,12 +131,22 @@ func HLL(k HLLKind, b []byte) (res Result) {
 	msg, ok := DecodeHLL(b)
 	cls := hllClass(k, msg, ok)
 	res.Class = routine + "|" + cls
-	for recv := 0; recv < 2; recv++ {
+	var freshEnc []byte // re-encoding of the value decoded into the zero receiver
+	for recv := 0; recv < 3; recv++ {
 		var h hllAPI
-		if recv == 0 {
+		var before []byte
+		switch recv {
+		case 0:
 			h = k.Zero()
-		} else {
+		case 1:
 			h = k.New(5, false)
+		default:
+			// a receiver that already holds a different valid sketch
+			h = k.New(6, false)
+			for i := 0; i < 40; i++ {
+				h.Write([]byte{byte(i), 'h', byte(i * 7)})
+			}
+			before, _ = h.MarshalBinary()
 		}
 		var err error
 		res.Calls++
@@ -147,6 +157,30 @@ func HLL(k HLLKind, b []byte) (res Result) {
 		if err != nil {
 			if cls == "well-formed" && (recv == 0 || msg.Hash == k.Name) {
 				res.add(routine+"|well-formed|rejected", "%s rejects a well-formed sketch (p=%d, hash %s): %v", routine, msg.P, msg.Hash, err)
+			}
+			if recv == 2 {
+				// After a rejected decode the receiver must be unchanged or at
+				// least a self-consistent sketch (nothing more is documented).
+				res.Calls += 3
+				if p := try(func() {
+					after, merr := h.MarshalBinary()
+					if merr != nil {
+						res.add(routine+"|rejected-input|receiver-inconsistent", "after %s returned %v the receiver (a valid sketch before the call) cannot be marshalled: %v", routine, err, merr)
+						return
+					}
+					if !bytes.Equal(after, before) {
+						am, ok := DecodeHLL(after)
+						if c := hllClass(k, am, ok); c != "well-formed" && c != "register-value-impossible" {
+							res.add(routine+"|rejected-input|receiver-inconsistent", "after %s returned %v the receiver (precision 6, 64 registers before the call) holds %s (%s)", routine, err, clipMsg(am), c)
+						}
+					}
+					for i := 0; i < 64; i++ {
+						h.Write([]byte{byte(i), byte(i >> 2), 'y'})
+					}
+					_ = h.Count()
+				}); p != "" {
+					res.add(routine+"|rejected-input|receiver-inconsistent", "after %s returned %v, using the receiver (a valid sketch before the call) panicked: %s", routine, err, p)
+				}
 			}
 			continue
 		}
@@ -169,7 +203,7 @@ func HLL(k HLLKind, b []byte) (res Result) {
 			}
 			continue
 		}
-		if recv == 1 && msg.Hash != k.Name {
+		if recv >= 1 && msg.Hash != k.Name {
 			res.add(routine+"|mismatched-hash|accepted", "%s into a receiver with hash %s accepts a sketch made with %s (documented: must be the same type)", routine, k.Name, msg.Hash)
 			continue
 		}
@@ -185,6 +219,12 @@ func HLL(k HLLKind, b []byte) (res Result) {
 			m2, ok2 := DecodeHLL(re)
 			if !ok2 || m2.Size != msg.Size || m2.Hash != msg.Hash || m2.P != msg.P || !bytes.Equal(m2.Register, msg.Register) {
 				res.add(routine+"|"+cls+"|remarshal-differs", "restored sketch marshals to %+v, the message was %+v", clipMsg(m2), clipMsg(msg))
+			}
+			// nothing of the previous content of the receiver may survive
+			if recv == 0 {
+				freshEnc = re
+			} else if freshEnc != nil && !bytes.Equal(re, freshEnc) {
+				res.add(routine+"|used-receiver|differs-from-fresh-receiver", "decoding the same message into a receiver that held another sketch gives %s, into a zero value %d bytes of another encoding", clipMsg(m2), len(freshEnc))
 			}
 			if cls == "well-formed" {
 				c := h.Count()
